@@ -216,6 +216,21 @@ def mseLinearPovmQop (bs : List (Block K)) {k : Nat} (Ainv : Mat K k (dsSize bs)
     .ok (mseLinearVar bs Ainv + (conjugate (matS d2 mo) covLin).trace)
   else .error .shape
 
+/-- `StandardQTomography._calc_mse_linear_analytical_mode_qoperation` of the base class — used as it is by
+`StandardQst`, `StandardQpt` and `StandardQmpt`: the `var` value, whatever the parametrisation. -/
+def mseLinearQopBase (bs : List (Block K)) {k : Nat} (Ainv : Mat K k (dsSize bs)) : K := mseLinearVar bs Ainv
+
+/-- the map from the variables of an `MProcess` with `on_para_eq_constraint=True` (all of `hs_0 … hs_{mo−2}`, rows
+`1…` of the last one) to the row the object does not store: `(S v)_a = Σ_{k<mo−1} v[k·d2² + a]`, the sum of the
+first rows of the stored HS matrices (the implied first row of the last one is `e_0 −` this). -/
+def matSQmpt (d2 mo : Nat) : Mat K d2 (mo * (d2 * d2) - d2) :=
+  Mat.ofFn fun a j => if j.val < (mo - 1) * (d2 * d2) ∧ j.val % (d2 * d2) = a.val then 1 else 0
+
+/-- what the object-mode MSE of a measurement-process tomography has to be (not in the code: finding D13):
+squared error of the stored entries + squared error of the implied row. -/
+def mseLinearQmptObject (bs : List (Block K)) (d2 mo : Nat) (Ainv : Mat K (mo * (d2 * d2) - d2) (dsSize bs)) : K :=
+  mseLinearVar bs Ainv + mseLinearVar bs ((matSQmpt d2 mo).mul Ainv)
+
 /-- `calc_mse_empi_dists_analytical`: `Σ_s trace(Cov_s)` accumulated from `0.0` -/
 def mseEmpi : List (Block K) → K
   | [] => 0
@@ -261,6 +276,10 @@ variable {K : Type} [Add K] [Mul K] [Div K] [Zero K] [One K]
 
 /-- `_calc_cramer_rao_bound`: `trace(inv(F)) / N`, `Finv = np.linalg.inv(fisher)` handed in -/
 def crb {nv : Nat} (Finv : Mat K nv nv) (N : K) : K := Finv.trace / N
+
+/-- the object-parametrisation bound for a measurement-process tomography (not in the code: finding D13b) -/
+def crbQmptObject (d2 mo : Nat) (Finv : Mat K (mo * (d2 * d2) - d2) (mo * (d2 * d2) - d2)) (N : K) : K :=
+  crb Finv N + (conjugate (matSQmpt d2 mo) Finv).trace / N
 
 /-- `StandardPovmt.calc_cramer_rao_bound` for `on_para_eq_constraint = True` -/
 def crbPovm (d2 mo : Nat) (Finv : Mat K ((mo - 1) * d2) ((mo - 1) * d2)) (N : K) : K :=
@@ -527,6 +546,14 @@ def handle (args : List String) : Option String :=
       let F ← mkMat ((mo - 1) * d2) ((mo - 1) * d2) (← parseList? parseRat? finv)
       let n ← parseRat? n
       some s!"ok {showRat (crbPovm d2 mo F n)}"
+  | ["matsqmpt", d2, mo] => do
+      let d2 ← parseNat? d2
+      let mo ← parseNat? mo
+      some (showMat (matSQmpt (K := Rat) d2 mo))
+  | ["mats", d2, mo] => do
+      let d2 ← parseNat? d2
+      let mo ← parseNat? mo
+      some (showMat (matS (K := Rat) d2 mo))
   | ["enumcov", ps, n] => do
       let ps ← parseList? parseRat? ps
       let n ← parseNat? n
